@@ -245,11 +245,66 @@ def check(ctx):
         ctx.ob('C08.R5.null-move-not-in-check', 'search:do_null_move', ok,
                'null-move pruning is only tried when the side to move is not in check', site=s.loc(n))
 
+    # the value of the search made after a pass (null move) is not the value of a legal line: it may be compared with the
+    # window, never returned, stored or stored in the table (a mate score from it would announce a mate that needs the pass)
+    from rules.effects import reaching_def
+    unulls = [n for n, cfid, nm in s.calls() if nm == 'engine::Position::undo_null_move']
+    scc_names = {s.name, 'engine::Search::quiescence_search'}
+    for n in nulls:
+        tainted = []
+        for x in s.all_nodes():
+            if x.get('callee', {}).get('n') in scc_names and s.cfg.node_dominates(n, x) and \
+                    any(s.cfg.node_dominates(x, u) for u in unulls):
+                tainted.append(x)
+        ctx.floor('C08.R5.null-move-value', len(tainted), 1, 'searches made after the pass')
+        for x in tainted:
+            # where does the call's value go?  an initialiser / assignment of a local
+            par = s.parent(x)
+            while par is not None and par['k'] in ('UnaryOperator', 'ImplicitCastExpr', 'ParenExpr', 'ExprWithCleanups', 'CXXOperatorCallExpr') \
+                    and (par['k'] != 'CXXOperatorCallExpr' or par.get('op') == '-'):
+                par = s.parent(par)
+            vid = None
+            defnode = None
+            if par is not None and par['k'] == 'VarDecl':
+                vid, defnode = par['id'], kids(par)[0]
+            elif par is not None and par['k'] == 'BinaryOperator' and par.get('op') == '=':
+                t = strip_casts(kids(par)[0])
+                if t.get('ref', {}).get('k') == 'Local':
+                    vid, defnode = t['ref']['id'], kids(par)[1]
+            if vid is None:
+                ok = par is not None and par['k'] == 'BinaryOperator' and par.get('op') in ('<', '<=', '>', '>=')
+                ctx.ob('C08.R5.null-move-value', 'search:%d' % x.get('l', 0), ok,
+                       'the value of the search after a pass is only compared with the window', site=s.loc(x))
+                continue
+            bad = []
+            for u in s.all_nodes():
+                r = u.get('ref') or {}
+                if r.get('k') != 'Local' or r.get('id') != vid or access_kind(s, u) != 'read':
+                    continue
+                d = reaching_def(s, u)
+                if d is not None and d is not defnode:
+                    continue            # another definition (e.g. the verification search without a pass) reaches this use
+                if d is None and not s.cfg.node_dominates(x, u):
+                    continue
+                pu = s.parent(u)
+                while pu is not None and pu['k'] in ('ImplicitCastExpr', 'ParenExpr'):
+                    pu = s.parent(pu)
+                if not (pu is not None and pu['k'] == 'BinaryOperator' and pu.get('op') in ('<', '<=', '>', '>=')):
+                    bad.append(u)
+            ctx.ob('C08.R5.null-move-value', 'search:%d' % x.get('l', 0), not bad,
+                   'the value of the search after a pass is only compared with the window; it is neither returned nor stored%s'
+                   % ('' if not bad else ' — used at line(s) %s' % sorted({b.get('l') for b in bad})), site=s.loc(bad[0]) if bad else s.loc(x))
+
     # ---- R7 the draw cut-offs taken before the mate test rest on C07's predicates --------------------------------------
     from rules.common import SubCtx
     import props.C07 as c07
     sub = SubCtx(ctx)
     c07.check(sub)
+    badc = [r for r in sub.results if not r[2] and (r[0].startswith('C07.R6') or r[0].startswith('C07.R5'))]
+    ctx.ob('C08.R7.check-test', 'is_in_check', not badc,
+           'a node without legal moves is scored as mate or as stalemate by Position::is_in_check (C07.R5/R6)%s'
+           % ('' if not badc else ' — refuted: ' + '; '.join('%s %s at %s' % (r[0], r[1], r[4]) for r in badc[:3])),
+           site=badc[0][4] if badc else s.loc())
     bad = [r for r in sub.results if not r[2] and (r[0].startswith('C07.R3') or r[0].startswith('C07.R4') or r[0].startswith('C07.R2'))]
     ctx.ob('C08.R7.draw-cut', 'is_draw/is_repeated', not bad,
            'search() and quiescence_search() return VALUE_DRAW on is_repeated()/is_draw() before looking for mate: a position wrongly '
